@@ -13,6 +13,7 @@ secrets below; that step is not modelled (the harness checks it with the real li
 -/
 import VlsModel.Model.Keys
 import VlsModel.Lemmas.Keys
+import VlsModel.Gen.ChanIdLayout
 
 namespace VlsModel.Props.C18
 open VlsModel.Keys VlsModel.Gen.KeyDeriveUse
@@ -323,7 +324,196 @@ theorem C18_keys_id_zero_padding (child : Bytes → Net → Nat → Bytes) (styl
   simp only [keysIdOf, concretePrims, hkdfSha256]
   rw [hmac_key_zero_pad id base h]
 
+/-! ## Distinct ids, for the ids the node API builds
+
+The refutation above needs ids of *different lengths* (or longer than the HMAC block).  `Node::new_channel` builds
+`ChannelId::new_from_peer_id_and_oid(peer_id, dbid)` (33 + 8 bytes, dbid ≠ 0), `new_channel_with_random_id` and the
+LDK `new_from_oid` build 32-byte ids.  For those the zero-padding cannot collide: distinct ids have distinct HMAC key
+blocks (`C18_node_ids_distinct_blocks`, `C18_node_id_vs_32_byte_id`, `C18_32_byte_ids_distinct_blocks`), so the only
+hypothesis left for distinct keys is that HKDF does not collide on *different blocks* (`C18_distinct_node_ids`), which
+the finding does not refute; conversely equal blocks always give equal keys (`C18_block_collision_same_keys`), so the
+hypothesis cannot be weakened further. -/
+
+/-- **C18_gen_chanid.** the model's `ChannelId` constructors and accessors have the byte layout that
+`translate/x_chanid.py` reads off channel.rs (`Gen/ChanIdLayout.lean`): buffer lengths, where the peer id and the
+oid bytes go, little-endian on the way in and out, `oid()` reading the last 8 bytes, `ldk_channel_keys_id()`
+demanding exactly 32 bytes -/
+theorem C18_gen_chanid (p : Bytes) (o : Nat) (hp : p.length = Gen.ChanIdLayout.peerOidPeerTo - Gen.ChanIdLayout.peerOidPeerFrom) :
+    Gen.ChanIdLayout.peerOidLittleEndian = true ∧ Gen.ChanIdLayout.oidLittleEndian = true ∧
+    Gen.ChanIdLayout.oidReadLittleEndian = true ∧ Gen.ChanIdLayout.peerOidPeerFrom = 0 ∧
+    (chanIdOfPeerOid p o).length = Gen.ChanIdLayout.peerOidLen ∧
+    (chanIdOfPeerOid p o).take Gen.ChanIdLayout.peerOidPeerTo = p ∧
+    (chanIdOfPeerOid p o).drop Gen.ChanIdLayout.peerOidOidFrom = le64 o ∧
+    (chanIdOfOid o).length = Gen.ChanIdLayout.oidLen ∧
+    (chanIdOfOid o).take Gen.ChanIdLayout.oidOidFrom = List.replicate Gen.ChanIdLayout.oidOidFrom 0 ∧
+    (chanIdOfOid o).drop Gen.ChanIdLayout.oidOidFrom = le64 o ∧
+    (∀ id : Bytes, chanIdOid id = if id.length < Gen.ChanIdLayout.oidReadTail then none
+        else some (le64Val (id.drop (id.length - Gen.ChanIdLayout.oidReadTail)))) ∧
+    (∀ id : Bytes, chanIdLdkKeysId id = if id.length = Gen.ChanIdLayout.ldkKeysIdLen then some id else none) := by
+  have hp' : p.length = 33 := by simpa [Gen.ChanIdLayout.peerOidPeerTo, Gen.ChanIdLayout.peerOidPeerFrom] using hp
+  refine ⟨by decide, by decide, by decide, by decide, ?_, ?_, ?_, ?_, ?_, ?_, fun _ => rfl, fun _ => rfl⟩
+  · simp [chanIdOfPeerOid, le64_length, hp', Gen.ChanIdLayout.peerOidLen]
+  · show (p ++ le64 o).take 33 = p
+    rw [← hp']; exact List.take_left
+  · show (p ++ le64 o).drop 33 = le64 o
+    rw [← hp']; exact List.drop_left
+  · simp [chanIdOfOid, le64_length, Gen.ChanIdLayout.oidLen]
+  · show (List.replicate 24 (0 : UInt8) ++ le64 o).take 24 = List.replicate 24 0
+    exact List.take_left' (by simp)
+  · show (List.replicate 24 (0 : UInt8) ++ le64 o).drop 24 = le64 o
+    exact List.drop_left' (by simp)
+
+/-- `oid()` returns what the constructors were given; both constructors are injective -/
+theorem C18_chanid_oid_roundtrip (peer : Bytes) (oid : Nat) (h : oid < 2 ^ 64) :
+    chanIdOid (chanIdOfPeerOid peer oid) = some oid ∧ chanIdOid (chanIdOfOid oid) = some oid ∧
+    (chanIdOfPeerOid peer oid).length = peer.length + 8 ∧ chanIdLdkKeysId (chanIdOfOid oid) = some (chanIdOfOid oid) := by
+  refine ⟨chanIdOid_of_suffix peer oid h, chanIdOid_of_suffix _ oid h, ?_, ?_⟩
+  · simp [chanIdOfPeerOid, le64_length]
+  · simp [chanIdLdkKeysId, chanIdOfOid, le64_length]
+
+theorem C18_chanid_injective (p p' : Bytes) (o o' : Nat) (hl : p.length = p'.length)
+    (ho : o < 2 ^ 64) (ho' : o' < 2 ^ 64) (h : chanIdOfPeerOid p o = chanIdOfPeerOid p' o') : p = p' ∧ o = o' := by
+  have := List.append_inj h hl
+  exact ⟨this.1, le64_inj o o' ho ho' this.2⟩
+
+/-- the finding in general form: equal HMAC key blocks ⇒ equal `keys_id` (every style, seed base, oracle) -/
+theorem C18_block_collision_same_keys (child : Bytes → Net → Nat → Bytes) (style : Style) (base a b : Bytes)
+    (h : hmacKeyBlock a = hmacKeyBlock b) :
+    keysIdOf (concretePrims child) style base a = keysIdOf (concretePrims child) style base b := by
+  simp only [keysIdOf, concretePrims, hkdfSha256]
+  rw [hmac_of_block a b base h]
+
+/-- two different (peer id, dbid) requests never share an HMAC key block -/
+theorem C18_node_ids_distinct_blocks (p p' : Bytes) (o o' : Nat) (hp : p.length = 33) (hp' : p'.length = 33)
+    (ho : o < 2 ^ 64) (ho' : o' < 2 ^ 64) (hne : ¬ (p = p' ∧ o = o')) :
+    hmacKeyBlock (chanIdOfPeerOid p o) ≠ hmacKeyBlock (chanIdOfPeerOid p' o') := by
+  intro h
+  have hl : (chanIdOfPeerOid p o).length = (chanIdOfPeerOid p' o').length := by
+    simp [chanIdOfPeerOid, le64_length, hp, hp']
+  have h64 : (chanIdOfPeerOid p o).length ≤ 64 := by simp [chanIdOfPeerOid, le64_length, hp]
+  exact hne (C18_chanid_injective p p' o o' (by omega) ho ho' (hmacKeyBlock_inj_same_len _ _ hl h64 h))
+
+/-- two different 32-byte ids (random ids, LDK `new_from_oid` ids) never share a block -/
+theorem C18_32_byte_ids_distinct_blocks (r r' : Bytes) (hr : r.length = 32) (hr' : r'.length = 32) (hne : r ≠ r') :
+    hmacKeyBlock r ≠ hmacKeyBlock r' :=
+  fun h => hne (hmacKeyBlock_inj_same_len r r' (by omega) (by omega) h)
+
+/-- a CLN-style id with a non-zero dbid (`new_channel` refuses dbid 0) never shares a block with a 32-byte id:
+bytes 33..40 of its block are the dbid, those of the other block are padding -/
+theorem C18_node_id_vs_32_byte_id (p r : Bytes) (o : Nat) (hp : p.length = 33) (hr : r.length = 32)
+    (ho : o < 2 ^ 64) (h0 : o ≠ 0) : hmacKeyBlock (chanIdOfPeerOid p o) ≠ hmacKeyBlock r := by
+  intro h
+  rw [hmacKeyBlock_short _ (by simp [chanIdOfPeerOid, le64_length, hp]), hmacKeyBlock_short r (by omega)] at h
+  have h2 := congrArg (fun l => (l.drop 33).take 8) h
+  have e1 : (((chanIdOfPeerOid p o) ++ List.replicate (64 - (chanIdOfPeerOid p o).length) (0 : UInt8)).drop 33).take 8
+      = le64 o := by
+    have : (chanIdOfPeerOid p o) ++ List.replicate (64 - (chanIdOfPeerOid p o).length) (0 : UInt8)
+        = p ++ (le64 o ++ List.replicate (64 - (chanIdOfPeerOid p o).length) 0) := by
+      simp [chanIdOfPeerOid, List.append_assoc]
+    rw [this, ← hp, List.drop_left, ← le64_length o, List.take_left]
+  have e2 : ((r ++ List.replicate (64 - r.length) (0 : UInt8)).drop 33).take 8 = List.replicate 8 0 := by
+    have : r ++ List.replicate (64 - r.length) (0 : UInt8) = (r ++ [0]) ++ List.replicate 31 0 := by
+      rw [hr]; simp [List.replicate_succ]
+    have hl : (r ++ [(0 : UInt8)]).length = 33 := by simp [hr]
+    rw [this, ← hl, List.drop_left]
+    decide
+  simp only [e1, e2] at h2
+  rw [← le64_zero] at h2
+  exact h0 (le64_inj o 0 ho (by decide) h2)
+
+/-- **C18_distinct_by_block.** If the (masked) HKDF separates different HMAC key blocks — the only collisions
+HMAC's key handling forces are excluded from the hypothesis — ids with different blocks get different `keys_id`
+and different key material, in whatever manager states they are derived. -/
+theorem C18_distinct_by_block (P : Prims) (style : Style) (seed : Bytes) (net : Net)
+    (hinj : ∀ a b,
+      applyMask (maskOf style) (P.hkdf32 (channelSeedBase P seed) infoPerPeerSeed a)
+        = applyMask (maskOf style) (P.hkdf32 (channelSeedBase P seed) infoPerPeerSeed b) →
+      hmacKeyBlock a = hmacKeyBlock b)
+    (id₁ id₂ : Bytes) (hne : hmacKeyBlock id₁ ≠ hmacKeyBlock id₂) (st₁ st₂ : KMState) :
+    keysIdOf P style (channelSeedBase P seed) id₁ ≠ keysIdOf P style (channelSeedBase P seed) id₂ ∧
+    channelKeys P style seed net id₁ st₁ ≠ channelKeys P style seed net id₂ st₂ := by
+  have hk : keysIdOf P style (channelSeedBase P seed) id₁ ≠ keysIdOf P style (channelSeedBase P seed) id₂ :=
+    fun he => hne (hinj id₁ id₂ he)
+  refine ⟨hk, fun he => hk ?_⟩
+  have := congrArg KeyMaterial.keysId he
+  simpa [channelKeys, channelKeysFromKeysId] using this
+
+/-- **C18_distinct_node_ids.** "Different channel ids give different keys" for the ids `Node::new_channel` builds:
+two different (peer id, dbid) pairs get different key material under the block-separation hypothesis alone. -/
+theorem C18_distinct_node_ids (P : Prims) (style : Style) (seed : Bytes) (net : Net)
+    (hinj : ∀ a b,
+      applyMask (maskOf style) (P.hkdf32 (channelSeedBase P seed) infoPerPeerSeed a)
+        = applyMask (maskOf style) (P.hkdf32 (channelSeedBase P seed) infoPerPeerSeed b) →
+      hmacKeyBlock a = hmacKeyBlock b)
+    (p p' : Bytes) (o o' : Nat) (hp : p.length = 33) (hp' : p'.length = 33)
+    (ho : o < 2 ^ 64) (ho' : o' < 2 ^ 64) (hne : ¬ (p = p' ∧ o = o')) (st₁ st₂ : KMState) :
+    channelKeys P style seed net (chanIdOfPeerOid p o) st₁ ≠ channelKeys P style seed net (chanIdOfPeerOid p' o') st₂ :=
+  (C18_distinct_by_block P style seed net hinj _ _
+    (C18_node_ids_distinct_blocks p p' o o' hp hp' ho ho' hne) st₁ st₂).2
+
+/-- … and against / among the 32-byte ids (random ids, LDK oids) -/
+theorem C18_distinct_node_and_random_ids (P : Prims) (style : Style) (seed : Bytes) (net : Net)
+    (hinj : ∀ a b,
+      applyMask (maskOf style) (P.hkdf32 (channelSeedBase P seed) infoPerPeerSeed a)
+        = applyMask (maskOf style) (P.hkdf32 (channelSeedBase P seed) infoPerPeerSeed b) →
+      hmacKeyBlock a = hmacKeyBlock b)
+    (p r r' : Bytes) (o : Nat) (hp : p.length = 33) (hr : r.length = 32) (hr' : r'.length = 32)
+    (ho : o < 2 ^ 64) (h0 : o ≠ 0) (st₁ st₂ : KMState) :
+    channelKeys P style seed net (chanIdOfPeerOid p o) st₁ ≠ channelKeys P style seed net r st₂ ∧
+    (r ≠ r' → channelKeys P style seed net r st₁ ≠ channelKeys P style seed net r' st₂) :=
+  ⟨(C18_distinct_by_block P style seed net hinj _ _ (C18_node_id_vs_32_byte_id p r o hp hr ho h0) st₁ st₂).2,
+   fun hne => (C18_distinct_by_block P style seed net hinj _ _
+     (C18_32_byte_ids_distinct_blocks r r' hr hr' hne) st₁ st₂).2⟩
+
+/-- **C18_history_distinct_node_ids.** the clause "different channel ids give different keys" at the level of
+histories: after any op history of a Native or Ldk node — and even across two *different* histories of the same seed —
+two channels whose ids were built from different `(peer_id, dbid)` requests hold different key material (and hence, by
+`C18_secrets_stable`'s function `keysOf`, are different functions of their commitment numbers), under the
+block-separation hypothesis alone. -/
+theorem C18_history_distinct_node_ids (P : Prims) (style : Style) (hs : style = .native ∨ style = .ldk)
+    (seed : Bytes) (net : Net)
+    (hinj : ∀ a b,
+      applyMask (maskOf style) (P.hkdf32 (channelSeedBase P seed) infoPerPeerSeed a)
+        = applyMask (maskOf style) (P.hkdf32 (channelSeedBase P seed) infoPerPeerSeed b) →
+      hmacKeyBlock a = hmacKeyBlock b)
+    (ops₁ ops₂ : List Op) (c₁ c₂ : Chan)
+    (h₁ : c₁ ∈ (run P style seed net ops₁).chans) (h₂ : c₂ ∈ (run P style seed net ops₂).chans)
+    (p p' : Bytes) (o o' : Nat) (hp : p.length = 33) (hp' : p'.length = 33) (ho : o < 2 ^ 64) (ho' : o' < 2 ^ 64)
+    (hid₁ : c₁.id = chanIdOfPeerOid p o) (hid₂ : c₂.id = chanIdOfPeerOid p' o') (hne : ¬ (p = p' ∧ o = o')) :
+    c₁.keys ≠ c₂.keys := by
+  rw [C18_stateless_history P style hs seed net ops₁ c₁ h₁, C18_stateless_history P style hs seed net ops₂ c₂ h₂,
+    hid₁, hid₂]
+  exact C18_distinct_node_ids P style seed net hinj p p' o o' hp hp' ho ho' hne KMState.fresh KMState.fresh
+
 /-! ## Non-vacuity -/
+
+/-- the block-separation hypothesis of `C18_distinct_by_block` is satisfiable (an "HKDF" that returns the block),
+and with it a CLN-style id and its zero-extended 42-byte variant — the shape of the finding — are *not* separated:
+the hypothesis does not contradict the finding -/
+example : (∀ a b : Bytes, applyMask (maskOf .native) (hmacKeyBlock a) = applyMask (maskOf .native) (hmacKeyBlock b) →
+      hmacKeyBlock a = hmacKeyBlock b) ∧
+    hmacKeyBlock (chanIdOfPeerOid (List.replicate 33 2) 7) = hmacKeyBlock (chanIdOfPeerOid (List.replicate 33 2) 7 ++ [0]) := by
+  refine ⟨?_, by decide⟩
+  intro a b h
+  simpa [maskOf, nativeKeysIdMask, applyMask] using h
+
+/-- `C18_history_distinct_node_ids` is not vacuous: its hypothesis holds for `witnessPrims` (an "HKDF" that returns its
+salt), and a history with a restart holds two channels of one peer with different dbids -/
+example : ∀ a b : Bytes,
+    applyMask (maskOf .native) (witnessPrims.hkdf32 (channelSeedBase witnessPrims [5]) infoPerPeerSeed a)
+      = applyMask (maskOf .native) (witnessPrims.hkdf32 (channelSeedBase witnessPrims [5]) infoPerPeerSeed b) →
+    hmacKeyBlock a = hmacKeyBlock b := by
+  intro a b h
+  have : a = b := by simpa [maskOf, nativeKeysIdMask, applyMask, witnessPrims] using h
+  rw [this]
+
+example : ((run witnessPrims .native [5] .testnet
+      [.newChan (chanIdOfPeerOid (List.replicate 33 2) 1), .newChan (chanIdOfPeerOid (List.replicate 33 2) 2), .restart]).chans.map
+        (fun c => c.keys.keysId))
+    = [chanIdOfPeerOid (List.replicate 33 2) 1, chanIdOfPeerOid (List.replicate 33 2) 2] := by decide
+
+example : chanIdOfPeerOid [1, 2, 3] 258 = [1, 2, 3, 2, 1, 0, 0, 0, 0, 0, 0] ∧ chanIdOid [1, 2, 3, 2, 1, 0, 0, 0, 0, 0, 0] = some 258
+    ∧ chanIdOid [1, 2, 3] = none ∧ chanIdLdkKeysId [1, 2, 3] = none := by decide
 
 /-- a non-trivial history: two channels, a random one, setup, advances, entropy use, two restarts -/
 def sampleOps : List Op :=
